@@ -293,6 +293,48 @@ func rangeLoops(fn *ssa.Function) []*loopInfo {
 		if bi, ok := ln.Call.Value.(*ssa.Builtin); !ok || bi.Name() != "len" {
 			continue
 		}
+		if ph, isPhi := cmp.X.(*ssa.Phi); isPhi && ph.Block() == b {
+			// index-loop form: for i := 0; i < len(x); i++ — the counter starts at 0 and every back edge adds exactly 1,
+			// so the loop visits the elements as the range form does
+			okForm := len(ph.Edges) >= 2
+			var elemIdx ssa.Value = ph
+			for i, e := range ph.Edges {
+				pred := b.Preds[i]
+				if b.Dominates(pred) {
+					bo, isBo := e.(*ssa.BinOp)
+					if !isBo || bo.Op != token.ADD || bo.X != ssa.Value(ph) {
+						okForm = false
+						continue
+					}
+					if k, isK := constIntOf(bo.Y); !isK || k != 1 {
+						okForm = false
+					}
+				} else if k, isK := constIntOf(e); !isK || k != 0 {
+					okForm = false
+				}
+			}
+			if okForm {
+				l := &loopInfo{header: b, body: b.Succs[0], exit: b.Succs[1], over: ln.Call.Args[0]}
+				for _, blk := range fn.Blocks {
+					if blk != b && !inNaturalLoop(b, blk) {
+						continue
+					}
+					for _, in := range blk.Instrs {
+						if ia, ok := in.(*ssa.IndexAddr); ok && ia.Index == elemIdx && l.elem == nil {
+							if refs := ia.Referrers(); refs != nil {
+								for _, r := range *refs {
+									if u, ok := r.(*ssa.UnOp); ok && u.Op == token.MUL {
+										l.elem = u
+									}
+								}
+							}
+						}
+					}
+				}
+				out = append(out, l)
+			}
+			continue
+		}
 		inc, ok := cmp.X.(*ssa.BinOp)
 		if !ok || inc.Op != token.ADD {
 			continue
